@@ -183,6 +183,115 @@ def run_impl(case, copy_inputs=True):
     return out
 
 
+ARRLIB = "mpverif_arrays"
+ARRLIB_SRC = '''
+from mpilot import params
+from mpilot.commands import Command
+
+HOLD = {}     # result name -> the array the command hands out
+
+
+class HeldData(Command):
+    """a finished-looking producer of non-fuzzy data: returns the array held for its result name"""
+    inputs = {}
+    output = params.DataParameter()
+
+    def execute(self, **kw):
+        return HOLD[self.result_name]
+
+
+class HeldFuzzy(Command):
+    """the same, declared fuzzy"""
+    is_fuzzy = True
+    inputs = {}
+    output = params.DataParameter()
+
+    def execute(self, **kw):
+        return HOLD[self.result_name]
+'''
+
+
+def arrays_lib():
+    import sys, types
+    if ARRLIB in sys.modules:
+        return sys.modules[ARRLIB]
+    m = types.ModuleType(ARRLIB)
+    sys.modules[ARRLIB] = m
+    exec(compile(ARRLIB_SRC, ARRLIB, "exec"), m.__dict__)
+    return m
+
+
+def run_pipeline(case, producers_first=True):
+    """The same case through the whole pipeline: a Program whose producer commands hand out the input arrays, the command under test added
+    with its arguments as the parser would deliver them (numbers, words, ListArguments), evaluated through `.result` - i.e. through
+    `Command.run`, `validate_params` and every parameter cleaner.  Returns a dict like run_impl; raw exceptions raised inside the body arrive
+    wrapped (`kind` = "unexpected")."""
+    from collections import OrderedDict
+    from mpilot.program import Program
+    from mpilot.arguments import Argument, ListArgument
+    from mpilot.exceptions import MPilotError, UnexpectedError
+    lib = arrays_lib()
+    lib.HOLD.clear()
+    libname, how, pmap = COMMANDS[case.cmd]
+    cls = command_class(case.cmd)
+    fuzzy_in = case.cmd in FUZZY_CONSUMERS
+    first = {}
+    for i, a in enumerate(case.inputs):
+        first.setdefault(id(a), i)
+    copies = {i: case.inputs[i].copy() for i in set(first.values())}
+    inputs = [copies[first[id(a)]] for a in case.inputs]
+    names = ["I%d" % first[id(a)] for a in case.inputs]
+    p = Program(libraries=("mpilot.libraries.eems.basic", "mpilot.libraries.eems.fuzzy", ARRLIB))
+    for i in sorted(copies):
+        lib.HOLD["I%d" % i] = copies[i]
+        p.add_command(lib.HeldFuzzy if fuzzy_in else lib.HeldData, "I%d" % i, OrderedDict())
+    args = OrderedDict()
+    if how == "one":
+        args["InFieldName"] = Argument("InFieldName", names[0], ARG_LINE0)
+    elif how == "ab":
+        args["A"] = Argument("A", names[0], ARG_LINE0)
+        args["B"] = Argument("B", names[1], ARG_LINE0 + 1)
+    else:
+        args["InFieldNames"] = ListArgument("InFieldNames", list(names), ARG_LINE0, [ARG_LINE0] * len(names))
+    for k in pmap:
+        if k in case.params:
+            v = case.params[k]
+            args[k] = ListArgument(k, list(v), ARG_LINE0 + 5, [ARG_LINE0 + 5] * len(v)) if isinstance(v, (list, tuple)) else Argument(k, v, ARG_LINE0 + 5)
+    out = {"inputs_after": inputs, "program": p}
+    with warnings.catch_warnings():
+        warnings.simplefilter("ignore")
+        old = numpy.seterr(all="ignore")
+        try:
+            p.add_command(cls, "R", args, lineno=CMD_LINE)
+            if producers_first:
+                for i in sorted(copies):
+                    p.commands["I%d" % i].result
+            r = p.commands["R"].result
+            out.update(status="ok", result=r, vis=common.vis_arr(r))
+        except UnexpectedError as e:
+            out.update(status="err", kind="unexpected", cls=type(e.exc).__name__, ref="none", text=str(e.exc)[:200])
+        except MPilotError as e:
+            out.update(status="err", kind="mp", cls=type(e).__name__, ref="none", text=None)
+        except Exception as e:
+            out.update(status="err", kind="raw", cls=type(e).__name__, ref="none", text=str(e)[:200])
+        finally:
+            numpy.seterr(**old)
+    return out
+
+
+def pipeline_differs(direct, piped):
+    """None if the outcome through the pipeline is the outcome of the body on the same arguments"""
+    if direct["status"] == "ok":
+        return _same(direct, piped) if piped["status"] == "ok" else "body returns %s, through Program/Command.run: %s %s" % (
+            impl_summary(direct)[:50], piped.get("kind"), piped.get("cls"))
+    if piped["status"] == "ok":
+        return "body raises %s, through Program/Command.run a result is returned" % direct["cls"]
+    if direct["kind"] == "mp":
+        return None if (piped["kind"] == "mp" and piped["cls"] == direct["cls"]) else "body raises %s, pipeline %s %s" % (direct["cls"], piped["kind"], piped["cls"])
+    # a raw exception of the body must arrive wrapped
+    return None if piped["kind"] in ("unexpected", "mp") else "raw %s escapes from Command.run" % piped["cls"]
+
+
 def impl_summary(out):
     if out["status"] == "ok":
         k, dt, sh, vals = out["vis"]
@@ -572,7 +681,7 @@ def gen_chains(rng, count, consumers=None, style="wild"):
     return cases
 
 
-def run_stream(ctx, model, cases, stream, tol=common.TOL, on_result=None, rerun=True, narrow=True):
+def run_stream(ctx, model, cases, stream, tol=common.TOL, on_result=None, rerun=True, narrow=True, pipeline=True):
     """runs cases on implementation and model, records disagreements; calls on_result(case, out, answer)"""
     outs = []
     kept = []
@@ -605,6 +714,20 @@ def run_stream(ctx, model, cases, stream, tol=common.TOL, on_result=None, rerun=
             if d:
                 ctx.fail("%s: executing the command a second time over the same input arrays gives a different result (%s) - "
                          "the first execution modified its inputs" % (c.cmd, d), c.describe())
+        if pipeline and not trivial:
+            # the same arguments through Program / Command.run / validate_params / the parameter cleaners: what the body is given, and what
+            # comes back, must be what a direct call of the body gives (an argument equal to 0, "" or [] is still an argument)
+            piped = run_pipeline(c, producers_first=bool(ctx.rng.random() < 0.7))
+            ctx.count("pipeline_twins")
+            d = pipeline_differs(out, piped)
+            if d:
+                ctx.fail("%s: evaluated inside a Program (arguments cleaned, body run by Command.run) the outcome differs from the body's own: %s" % (c.cmd, d), c.describe())
+            else:
+                for before, after in zip(c.inputs, piped["inputs_after"]):
+                    if not (numpy.array_equal(numpy.ma.getmaskarray(before), numpy.ma.getmaskarray(after)) and
+                            numpy.array_equal(numpy.ma.getdata(before)[~numpy.ma.getmaskarray(before)], numpy.ma.getdata(after)[~numpy.ma.getmaskarray(after)])):
+                        ctx.fail("%s: evaluated inside a Program, the stored result of one of its inputs changed" % c.cmd, c.describe())
+                        break
         if narrow and out["status"] == "ok" and out["vis"][1] == "f" and any(a.dtype == numpy.int64 for a in c.inputs):
             # the same integer values held in a narrower integer type (what a NetCDF byte/short variable or a typed array delivers):
             # a floating result must not depend on the width or signedness of the integers it was computed from
